@@ -40,13 +40,18 @@ def render(g, order):
             elif how == "or":
                 line = '  "%s": @t%d | @t%d%s' % (pname(t, i), to, to2, comma)
             elif how == "ainh":
-                line = '  "%s": [\n    { // {allOf: "@t%d"}\n      "nk": 1\n    }\n  ]%s' % (pname(t, i), to, comma)
+                k = ainh_nest(t, i)      # the item object sits in 1..3 arrays nested directly in one another
+                line = '  "%s": %s\n    { // {allOf: "@t%d"}\n      "nk": 1\n    }\n  %s%s' % (pname(t, i), "[" * k, to, "]" * k, comma)
             else:
                 line = '  "%s": %d%s' % (pname(t, i), i, comma)
             out.append(line)
         out.append("}")
         out.append("")
     return "\n".join(out)
+
+
+def ainh_nest(t, i):
+    return 1 + (t * 3 + i) % 3
 
 
 def inh_depth(g):
@@ -117,6 +122,8 @@ def item_children(js, t, key):
     for c in ((ut or {}).get("schema", {}).get("content") or {}).get("children") or []:
         if c.get("key") == key and not c.get("inheritedFrom"):
             items = c.get("children") or []
+            while items and items[0].get("tokenType") == "array":      # arrays nested directly in the array
+                items = items[0].get("children") or []
             if items:
                 return [(x.get("key"), x.get("inheritedFrom", "")) for x in items[0].get("children") or []]
     return None
